@@ -197,6 +197,14 @@ pub fn subjects(thorough: bool) -> Vec<SubjectDef> {
         }
     } else {
         v.push(SubjectDef::new("vparams:A:raw", SKind::VParams { fmt: Fmt::R }));
+        // the bare plonk key of the degree-4 family member, in the checked compressed format
+        // (G1Projective::from_bytes is a different decoder from G1Affine's) and, for the header
+        // sweep, the raw one; and a Blake2b-transcript proof (compressed points again)
+        v.push(SubjectDef::new("vk:fam1:proc", SKind::FamVk { w: 1, fmt: Fmt::P }));
+        let mut r = SubjectDef::new("vk:fam1:raw", SKind::FamVk { w: 1, fmt: Fmt::R });
+        r.profile = Profile::HeaderOnly;
+        v.push(r);
+        v.push(SubjectDef::new("proof:fam1", SKind::FamProof { w: 1 }));
     }
     v
 }
